@@ -5,6 +5,8 @@ use std::sync::Mutex;
 
 static RECORDS: Mutex<Vec<(String, String)>> = Mutex::new(Vec::new());
 static ACTIVE: std::sync::atomic::AtomicBool = std::sync::atomic::AtomicBool::new(false);
+/// format every record (so that lazily evaluated arguments are evaluated) but keep nothing
+static DISCARD: std::sync::atomic::AtomicBool = std::sync::atomic::AtomicBool::new(false);
 
 struct Capture;
 
@@ -13,8 +15,12 @@ impl log::Log for Capture {
         ACTIVE.load(std::sync::atomic::Ordering::Relaxed)
     }
     fn log(&self, record: &log::Record) {
-        if ACTIVE.load(std::sync::atomic::Ordering::Relaxed) {
-            RECORDS.lock().unwrap().push((record.level().to_string(), format!("{}", record.args())));
+        if DISCARD.load(std::sync::atomic::Ordering::Relaxed) {
+            let _ = format!("{}", record.args());
+        } else if ACTIVE.load(std::sync::atomic::Ordering::Relaxed) {
+            // render first: a panic inside a Display/Debug impl of the code under test must not poison the store
+            let text = format!("{}", record.args());
+            RECORDS.lock().unwrap_or_else(|e| e.into_inner()).push((record.level().to_string(), text));
         }
     }
     fn flush(&self) {}
@@ -28,7 +34,15 @@ pub fn install() {
 }
 
 pub fn start() {
-    RECORDS.lock().unwrap().clear();
+    RECORDS.lock().unwrap_or_else(|e| e.into_inner()).clear();
+    ACTIVE.store(true, std::sync::atomic::Ordering::Relaxed);
+    log::set_max_level(log::LevelFilter::Trace);
+}
+
+/// A process-wide logger at Trace level that renders and drops every record (C18: the ambient log level is
+/// not an input of validation).
+pub fn start_discard() {
+    DISCARD.store(true, std::sync::atomic::Ordering::Relaxed);
     ACTIVE.store(true, std::sync::atomic::Ordering::Relaxed);
     log::set_max_level(log::LevelFilter::Trace);
 }
@@ -40,7 +54,7 @@ pub fn active() -> bool {
 pub fn stop() -> Vec<(String, String)> {
     ACTIVE.store(false, std::sync::atomic::Ordering::Relaxed);
     log::set_max_level(log::LevelFilter::Off);
-    std::mem::take(&mut *RECORDS.lock().unwrap())
+    std::mem::take(&mut *RECORDS.lock().unwrap_or_else(|e| e.into_inner()))
 }
 
 fn b64(data: &[u8], url: bool, pad: bool) -> String {
